@@ -59,6 +59,34 @@ func Solve(script string, quantified bool, timeoutS int, scratch string, tag str
 	if err := os.WriteFile(file, []byte(script), 0o644); err != nil {
 		return SolverResult{Status: "error", Output: err.Error()}
 	}
+	// stage 1: one quick attempt with the configuration that decides most obligations, so that
+	// the full race (four to five processes) is only paid for the hard ones
+	if timeoutS > 4 && os.Getenv("GOVC_NOSTAGE") == "" {
+		solverSem <- struct{}{}
+		c, cancel1 := context.WithTimeout(context.Background(), 5*time.Second)
+		cmd := exec.CommandContext(c, "z3-new", "-T:3", "smt.auto_config=false", "smt.mbqi=false", file)
+		var out bytes.Buffer
+		cmd.Stdout = &out
+		cmd.Stderr = &out
+		t0 := time.Now()
+		_ = cmd.Run()
+		cancel1()
+		<-solverSem
+		for _, ln := range strings.Split(out.String(), "\n") {
+			ln = strings.TrimSpace(ln)
+			if ln == "" || strings.HasPrefix(ln, "WARNING") {
+				continue
+			}
+			if ln == "unsat" || ln == "sat" {
+				if ln == "unsat" && os.Getenv("GOVC_KEEP") == "" {
+					os.Remove(file)
+				}
+				return SolverResult{Status: ln, Backend: "z3-5.1.0/ematch", Time: time.Since(t0).Seconds(), Output: out.String(),
+					All: map[string]string{"z3-5.1.0/ematch": ln}}
+			}
+			break
+		}
+	}
 	type one struct {
 		name, status, out string
 		t            float64
@@ -70,6 +98,10 @@ func Solve(script string, quantified bool, timeoutS int, scratch string, tag str
 	n := 0
 	for _, s := range solvers {
 		if s.qf && quantified {
+			continue
+		}
+		// reachability canaries only need "not refutable": two complementary configurations suffice
+		if strings.Contains(tag, "#canary.") && s.name != "z3-4.8.12" && s.name != "z3-5.1.0/ematch" {
 			continue
 		}
 		n++
